@@ -240,8 +240,17 @@ func Gen(r *hx.Run) {
 		r.Emit(fmt.Sprintf("dgram 5 1 %s", hx.Hex(Q)), "ok")
 		ps := cutAt(Q, []int{8, 16}, 5)
 		w.proc(r, ps[0])
-		w.proc(r, ps[2])
-		time.Sleep(400 * time.Millisecond)
+		if k%2 == 0 {
+			w.proc(r, ps[2])
+			time.Sleep(400 * time.Millisecond)
+		} else {
+			// the age counts from the first fragment, not from the latest: two gaps shorter than the timeout that
+			// add up to more than it
+			time.Sleep(200 * time.Millisecond)
+			w.proc(r, ps[2])
+			time.Sleep(200 * time.Millisecond)
+			r.Count("timeout-history.age-from-first-fragment")
+		}
 		p := ps[1]
 		p.expired = true
 		w.proc(r, p) // must NOT complete: the old fragments are gone
